@@ -105,7 +105,20 @@ func (w *Worker) buildCex(s *State, label, neg, note string) *Cex {
 				small = append(small, "(and (<= (- 1099511627776) "+n.Term+") (<= "+n.Term+" 1099511627776))")
 			}
 		}
-		for _, tier := range [][]string{append(append([]string{neg}, shape...), small...), append([]string{neg}, shape...)} {
+		var nowsEq []string
+		if len(nows) > 1 {
+			for _, n := range nows[1:] {
+				nowsEq = append(nowsEq, tEq(n, nows[0]))
+			}
+		}
+		// third choice: instants at multiples of half a second from now (sub-second windows are hit in the middle)
+		half := append([]string(nil), nowsEq...)
+		if len(nows) > 0 {
+			for _, t := range times {
+				half = append(half, "(or (= "+t+" "+zeroTime+") (= (mod (- "+t+" "+nows[0]+") 500000000) 0))")
+			}
+		}
+		for _, tier := range [][]string{append(append([]string{neg}, shape...), small...), append([]string{neg}, shape...), append([]string{neg}, half...), append([]string{neg}, nowsEq...)} {
 			if len(tier) == 1 {
 				continue
 			}
